@@ -244,5 +244,9 @@ VP_HARNESS(h_packet_gate)
     const uint64_t declared = vp_be16(hb + 14);
     const bool expect = declared <= sz - 16 && !(hb[12] & 0x40) && hb[13] != 0;
     vp_assert(ok == expect, "C03: the message gate accepts exactly the messages whose declared payload fits the buffer (no error flag, non-zero type)");
+    // the same gate is what keeps Decoder::decode inside the frame (C02) and what makes a frame cut short yield exactly the
+    // messages it still contains completely (C04)
+    vp_assert(!ok || declared <= sz - 16, "C02: a message is handed to the packet constructor only if header and declared payload lie inside the remaining frame bytes");
+    vp_assert(ok == expect, "C04: a message is decoded iff it is completely contained in the frame (declared length over all 16-bit values)");
 }
 #endif
